@@ -10,6 +10,7 @@
 (*   probe(p)    call of a reporting probe [] -> []                        *)
 (*   block(r) loop(r) if(r) else end  br(d) br_if(d) br_table(ds,d)        *)
 (*   return unreachable nop const(v) drop lget(x) lset(x)                  *)
+(*   rnull rfunc bron(d) [bound]; bronn(d) brc(d) brcf(d) [model only]     *)
 (* A machine is a record; one call of XStep = one executed instruction.    *)
 (***************************************************************************)
 EXTENDS Naturals, Integers, Sequences, FiniteSets, TLC
@@ -69,7 +70,7 @@ TargetKind(code, i, d) ==
 TargetKinds(code, i) ==
     LET c == code[i] IN
     IF c.o = "br_table" THEN {TargetKind(code, i, c.ds[x]) : x \in DOMAIN c.ds} \cup {TargetKind(code, i, c.d)}
-    ELSE IF c.o \in {"br", "br_if", "bron"} THEN {TargetKind(code, i, c.d)}
+    ELSE IF c.o \in {"br", "br_if", "bron", "bronn", "brc", "brcf"} THEN {TargetKind(code, i, c.d)}
     ELSE {}
 
 ---------------------------------------------------------------------------
@@ -164,6 +165,16 @@ XStep(m, code, jt, ar, v) ==
       [] o = "bron"  -> IF Len(m.vs) = 0 THEN Stuck(m)
                         ELSE IF Top(m.vs) = 0 THEN Branch([m EXCEPT !.vs = Pop(@)], c.d, ar)
                         ELSE nx
+      \* the other reference-carrying branches (DESIGN 10.1; model side only so far, no alphabet item emits them):
+      \* br_on_non_null keeps the reference for the label and falls through without it; br_on_cast / br_on_cast_fail
+      \* (cast (ref null func) -> (ref func): it succeeds exactly on a non-null reference) leave it in both cases
+      [] o = "bronn" -> IF Len(m.vs) = 0 THEN Stuck(m)
+                        ELSE IF Top(m.vs) # 0 THEN Branch(m, c.d, ar)
+                        ELSE [nx EXCEPT !.vs = Pop(@)]
+      [] o = "brc"   -> IF Len(m.vs) = 0 THEN Stuck(m)
+                        ELSE IF Top(m.vs) # 0 THEN Branch(m, c.d, ar) ELSE nx
+      [] o = "brcf"  -> IF Len(m.vs) = 0 THEN Stuck(m)
+                        ELSE IF Top(m.vs) = 0 THEN Branch(m, c.d, ar) ELSE nx
       [] o = "return"      -> Return(m, ar)
       [] o = "unreachable" -> Trap(m)
       \* an exception nobody in this function catches ends the activation like a trap does
